@@ -486,6 +486,6 @@ def _code_gen(ast_nodes: list[AstNode], resolver: Resolver, macro_definitions: M
                 # whatever goes wrong while a statement is expanded is reported at that statement.
                 raise NodeError(f"{type(e).__name__}: {e}", file_info) from e
         else:
-            raise RuntimeError("Left over node", node)
+            raise NodeError(f"No code generator for a {node.kind} statement.", file_info)
 
     return code
